@@ -129,3 +129,110 @@ Theorem send_start_stop_are_the_translated_source ep gs w :
   /\ exec (HSendStopSub ep gs) w
     = send_sd (gen_sub_entries (fun g ttl => create_subscribe_entry g ttl 0) (gen_sub_stop_ttl (t_subscribe_ttl (cfg w))) gs) (Some ep) w.
 Proof. split; reflexivity. Qed.
+
+(* ------------------------------------------------------------------ TimedStore: refresh / stop / _expired / stop_all_for_address *)
+Record skst := mkSk { sk_w : world; sk_old : option N; sk_tid : option N; sk_ok : bool }.
+(* sk_ok = false: callback_new raised NakSubscription, the rest of refresh() is skipped.  The ghost events of the model
+   (GRefresh next to the store assignment, GExpire in store_expired) are not part of the code. *)
+Definition run_tact (st : store_id) (ttl : N) (a : addr) (k : key) (s : skst) (t : tact) : skst :=
+  if negb (sk_ok s) then s else
+  let w := sk_w s in
+  match t with
+  | TPop => let s0 := touch a (get_store st w) in
+            let d0 := inner a s0 in
+            mkSk (put_store st (aset N.eqb a (adel key_eqb k d0) s0) w)
+                 (match aget key_eqb k d0 with Some o => o | None => None end) (sk_tid s) true
+  | TCancel => mkSk (cancel_opt (sk_old s) w) (sk_old s) (sk_tid s) true
+  | TCallNew => let w0 := put_store st (touch a (get_store st w)) w in
+                let r := match st, k with
+                         | SFound, KService sv => (notify_service listener_offered sv a w0, true)
+                         | SSubs i, KSub sub => client_subscribed i sub a w0
+                         | _, _ => (w0, true)
+                         end in
+                mkSk (fst r) (sk_old s) (sk_tid s) (snd r)
+  | TArm => let r := call_later (ttl * usec_per_sec) (HExpired st a k) w in mkSk (snd r) (sk_old s) (Some (fst r)) true
+  | TStore => let wg := ghost (GRefresh st a k ttl) w in
+              let s2 := touch a (get_store st wg) in
+              mkSk (put_store st (aset N.eqb a (adel key_eqb k (inner a s2) ++ [(k, sk_tid s)]) s2) wg) (sk_old s) (sk_tid s) true
+  | TCallback => mkSk (store_callback st k a w) (sk_old s) (sk_tid s) true
+  end.
+Definition run_tacts st ttl a k (l : list tact) (w : world) (old : option N) : skst :=
+  fold_left (run_tact st ttl a k) l (mkSk w old None true).
+
+Lemma call_later_ghost d h g w :
+  call_later d h (ghost g w) = (fst (call_later d h w), ghost g (snd (call_later d h w))).
+Proof. reflexivity. Qed.
+Lemma get_store_ghost st g w : get_store st (ghost g w) = get_store st w.
+Proof. destruct st; reflexivity. Qed.
+Lemma put_store_ghost st s g w : put_store st s (ghost g w) = ghost g (put_store st s w).
+Proof.
+  destruct st; [reflexivity|]. unfold put_store. change (insts (ghost g w)) with (insts w).
+  destruct (aget N.eqb inst (insts w)); reflexivity.
+Qed.
+
+Ltac fin_refresh ttl := destruct (ttl =? TTL_FOREVER); [reflexivity|]; match goal with |- context [call_later ?d ?h ?x] => destruct (call_later d h x) end; reflexivity.
+
+Theorem store_refresh_is_the_translated_source st ttl a k w :
+  let d0 := inner a (touch a (get_store st w)) in
+  let found := match aget key_eqb k d0 with Some _ => true | None => false end in
+  let timer := match aget key_eqb k d0 with Some (Some _) => true | _ => false end in
+  let s := run_tacts st ttl a k (gen_ts_refresh found timer (ttl =? TTL_FOREVER)) w None in
+  store_refresh st ttl a k w = (sk_w s, sk_ok s).
+Proof.
+  cbv zeta. unfold store_refresh, gen_ts_refresh, run_tacts.
+  set (s0 := touch a (get_store st w)). set (d0 := inner a s0).
+  assert (Htail : forall w1 old, 
+            fold_left (run_tact st ttl a k) ((if negb (ttl =? TTL_FOREVER) then [TArm] else []) ++ [TStore]) (mkSk w1 old None true)
+            = mkSk (let w1g := ghost (GRefresh st a k ttl) w1 in
+                    let '(tid, w2) := if ttl =? TTL_FOREVER then (None, w1g)
+                                      else let '(t, w') := call_later (ttl * usec_per_sec) (HExpired st a k) w1g in (Some t, w') in
+                    let s2 := touch a (get_store st w2) in
+                    put_store st (aset N.eqb a (adel key_eqb k (inner a s2) ++ [(k, tid)]) s2) w2)
+                   old (if ttl =? TTL_FOREVER then None else Some (next_id w1)) true).
+  { intros w1 old. destruct (ttl =? TTL_FOREVER); cbn [negb app fold_left run_tact sk_ok sk_w sk_old sk_tid]; [reflexivity|].
+    rewrite call_later_ghost. cbn [fst snd]. rewrite !get_store_ghost, put_store_ghost. reflexivity. }
+  destruct (aget key_eqb k d0) as [[tid|]|] eqn:E.
+  - cbn [app fold_left run_tact sk_ok sk_w sk_old sk_tid negb]. fold s0. fold d0. rewrite E. cbn [fold_left run_tact sk_ok sk_w sk_old sk_tid negb app].
+    rewrite Htail. cbn [sk_w sk_ok]. fin_refresh ttl.
+  - cbn [app fold_left run_tact sk_ok sk_w sk_old sk_tid negb]. fold s0. fold d0. rewrite E. cbn [app]. rewrite Htail. cbn [sk_w sk_ok cancel_opt]. fin_refresh ttl.
+  - assert (Hskip : forall l s, sk_ok s = false -> fold_left (run_tact st ttl a k) l s = s).
+    { induction l as [|t l IH]; intros s Hs; cbn [fold_left]; [reflexivity|]. unfold run_tact at 2. rewrite Hs. cbn [negb]. apply IH, Hs. }
+    cbn [app fold_left].
+    change (run_tact st ttl a k (mkSk w None None true) TCallNew)
+      with (let r := match st, k with
+                     | SFound, KService sv => (notify_service listener_offered sv a (put_store st s0 w), true)
+                     | SSubs i, KSub sub => client_subscribed i sub a (put_store st s0 w)
+                     | _, _ => (put_store st s0 w, true)
+                     end in mkSk (fst r) None None (snd r)).
+    cbv zeta.
+    destruct st as [|i]; destruct k as [sv|sub]; cbn [fst snd negb].
+    + rewrite Htail. cbn [sk_w sk_ok]. fin_refresh ttl.
+    + rewrite Htail. cbn [sk_w sk_ok]. fin_refresh ttl.
+    + rewrite Htail. cbn [sk_w sk_ok]. fin_refresh ttl.
+    + destruct (client_subscribed i sub a (put_store (SSubs i) s0 w)) as [w' ok] eqn:Ec. cbn [fst snd]. destruct ok; cbn [negb].
+      * rewrite Htail. cbn [sk_w sk_ok]. fin_refresh ttl.
+      * rewrite Hskip by reflexivity. reflexivity.
+Qed.
+
+Theorem store_stop_is_the_translated_source st a k w o :
+  aget key_eqb k (inner a (touch a (get_store st w))) = Some o ->
+  store_stop st a k w = sk_w (run_tacts st 0 a k (gen_ts_stop true (match o with Some _ => true | None => false end)) w None).
+Proof.
+  intros E. unfold store_stop, gen_ts_stop, run_tacts. cbv zeta. rewrite E.
+  destruct o; cbn [app fold_left run_tact sk_ok sk_w sk_old sk_tid negb]; try rewrite E; reflexivity.
+Qed.
+Theorem store_expired_is_the_translated_source st a k w o :
+  aget key_eqb k (inner a (touch a (get_store st w))) = Some o ->
+  store_expired st a k w = ghost (GExpire st a k) (sk_w (run_tacts st 0 a k (gen_ts_expired true (match o with Some _ => true | None => false end)) w None)).
+Proof.
+  intros E. unfold store_expired, gen_ts_expired, run_tacts. cbv zeta. rewrite E.
+  cbn [app fold_left run_tact sk_ok sk_w sk_old sk_tid negb]. reflexivity.
+Qed.
+(* nothing is cancelled and nobody is called when the entry is not there *)
+Theorem store_stop_expired_unknown_entry_does_nothing timer : gen_ts_stop false timer = [] /\ gen_ts_expired false timer = [].
+Proof. split; reflexivity. Qed.
+(* one round of the loop of stop_all_for_address: the snapshot's handle is cancelled, then the snapshot's callback runs *)
+Theorem store_stop_all_each_is_the_translated_source st a k o acc :
+  store_callback st k a (cancel_opt o acc)
+  = sk_w (run_tacts st 0 a k (gen_ts_stop_all_each (match o with Some _ => true | None => false end)) acc o).
+Proof. unfold gen_ts_stop_all_each, run_tacts. destruct o; reflexivity. Qed.
